@@ -5,7 +5,7 @@ import ast
 
 from ..astutil import attr_path, call_name, walk, src
 from ..cfg import exc_name
-from ..consteval import UNKNOWN
+from ..consteval import Instance, UNKNOWN
 from ..framework import rule
 from ..guards import branch_outcome, in_try_with_handler
 from ..linexpr import atom_name, cmp_norm
@@ -180,23 +180,37 @@ def d15_2(ctx):
         e = ctor[0].args[0]
         good = isinstance(e.test, ast.Call) and attr_path(e.test.func) in ("port.isdigit", "port.isnumeric") and isinstance(e.body, ast.Call) and call_name(e.body) == "int" and atom_name(e.orelse) == "port" and atom_name(ctor[0].args[1]) == "link"
     ctx.check(good, ckey(fn, "port-number"), f, "numeric ports become int(port); names stay names; the link is passed through", "PortSegment(int(port) if port.isdigit() else port, link) changed")
-    # shortcuts
-    sc = {"empty": False, "single": False}
-    for n in walk(f):
-        if isinstance(n, ast.If):
-            t = src(n.test).replace(" ", "")
-            if t == "notsegments":
-                for s in n.body:
-                    if isinstance(s, ast.Assign) and isinstance(s.value, ast.IfExp) and atom_name(s.value.test) == autop:
-                        b = s.value.body
-                        ok = isinstance(b, ast.List) and len(b.elts) == 1 and isinstance(b.elts[0], ast.Call) and call_name(b.elts[0]) == "PortSegment" and ctx.folder.eval(b.elts[0].args[0], fn.module) == "bp" and ctx.folder.eval(b.elts[0].args[1], fn.module) == 0
-                        sc["empty"] = ok and isinstance(s.value.orelse, ast.List) and not s.value.orelse.elts
-            if t == f"len(segments)==1and{autop}":
-                for s in n.body:
-                    if isinstance(s, ast.Assign) and isinstance(s.value, ast.List) and len(s.value.elts) == 1:
-                        c = s.value.elts[0]
-                        sc["single"] = isinstance(c, ast.Call) and call_name(c) == "PortSegment" and ctx.folder.eval(c.args[0], fn.module) == "bp" and src(c.args[1]).replace(" ", "") == "segments[0]"
-    ctx.check(sc["empty"] and sc["single"], ckey(fn, "shortcuts"), f, "no segments -> bp/0 (auto slot only); one segment -> bp/<segment> (auto slot only)", f"auto-slot shortcuts changed: {sc}", **sc)
+    # shortcuts and pairing, decided on witnesses (sa/miniinterp.py): the function is folded on route lists / strings with
+    # and without the auto-slot flag; PortSegment(...) constructions come back as (port, link) pairs
+    from ..miniinterp import run_function
+
+    witnesses = [
+        (([], True), [("bp", 0)]), (([], False), []), ((["3"], True), [("bp", "3")]), ((["3"], False), "RequestError"),
+        ((["bp", "1"], True), [("bp", "1")]), ((["bp", "1"], False), [("bp", "1")]), ((["1", "2"], False), [(1, "2")]),
+        ((["backplane", "1", "enet", "10.0.0.2"], False), [("backplane", "1"), ("enet", "10.0.0.2")]), ((["a", "b", "c"], True), "RequestError"),
+        (("bp/1", False), [("bp", "1")]), (("bp\\1/2\\3", True), [("bp", "1"), (2, "3")]),
+    ]
+    mutable_consts = [v for v in (ctx.folder.module_value(fn.module.name, nm) for nm in list(fn.module.symbols)) if isinstance(v, (list, dict, set))]
+    bad, und, shared = [], None, []
+    for (path_w, auto_w), want in witnesses:
+        kind, res = run_function(ctx, fn.module, f, {pathp: path_w, autop: auto_w})
+        if kind == "unknown":
+            und = f"({path_w!r}, {auto_w}): {res}"
+            break
+        if kind == "raise":
+            got = res
+        else:
+            if any(res is m_ for m_ in mutable_consts):
+                shared.append(f"({path_w!r}, {auto_w})")
+            got = [(x.args[0], x.args[1]) if isinstance(x, Instance) and x.ci.name == "PortSegment" and len(x.args) >= 2 else x for x in res] if isinstance(res, (list, tuple)) else res
+        if got != want:
+            bad.append(f"parse_cip_route({path_w!r}, auto_slot={auto_w}) -> {got!r}, expected {want!r}")
+    key = ckey(fn, "shortcuts")
+    if und is not None:
+        ctx.undecided(key, f, f"parse_cip_route is not foldable on witness {und}")
+    else:
+        ctx.check(not bad and not shared, key, f, f"no segments -> bp/0 and one segment -> bp/<segment> with auto slot only; pairs otherwise; odd counts refused ({len(witnesses)} witnesses); results are fresh lists",
+                  (f"route parsing deviates: {bad[:2]}" if bad else f"the route returned for {shared} is a module-level list shared between calls: a caller that edits its route (the Micro800 driver pops the slot) changes the route of every later bare-address path"), witnesses=len(witnesses))
 
 
 def _in_shortcut(stmt):
